@@ -1,5 +1,5 @@
 From PdfV Require Import Base.Prelude Base.DecProofs Gen.Generated Lex.Lexer Lex.StrLexer Lex.LexProofs Lex.StrProofs
-  Syn.Prim Syn.Utf8 Syn.Parser Syn.Serialize Syn.Spells Syn.ParserProofs Syn.NameProofs Syn.RenderProofs Syn.SerProofs Syn.StreamProofs Syn.IndirectSerProofs Syn.StreamSerProofs Properties.C04.
+  Syn.Prim Syn.Utf8 Syn.Parser Syn.Serialize Syn.Spells Syn.ParserProofs Syn.NameProofs Syn.RenderProofs Syn.SerProofs Syn.NumSerProofs Syn.StreamProofs Syn.IndirectSerProofs Syn.StreamSerProofs Properties.C04.
 Check C04_ser_spells : forall v, storable v ->
   exists core, ser v = Ok (core ++ trail v) /\ spells v (items_of v) /\
     forall tl, boundary tl -> renders (items_of v) (core ++ trail v ++ tl) (trail v ++ tl).
@@ -27,3 +27,6 @@ Check C04_stream : forall d data id gen,
     parse_indirect_object R allow F_ANY (mkLx p (obj_text id gen body rest)) = Ok (id, gen, PStream d id gen st (lenN data), s_end) /\
     p <= st /\ take (lenN data) (drop (st - p) (obj_text id gen body rest)) = data /\
     lrest s_end = [10] ++ rest.
+Check C04_numbers_normal : forall v, holdable v -> storable (norm v) /\ ser (norm v) = ser v.
+Check C04_roundtrip_holdable : forall v, holdable v -> vdepth (norm v) <= MAX_DEPTH -> forall R,
+  exists b, ser v = Ok b /\ parse R F_ANY b = Ok (norm v).
